@@ -37,7 +37,10 @@ func PadPKCS7(buf []byte, size int) ([]byte, error) {
 	bufLen := len(buf)
 	padLen := size - bufLen%size
 	padding := bytes.Repeat([]byte{byte(padLen)}, padLen)
-	return append(buf, padding...), nil
+	// Copy into a new slice: appending to buf could write into spare capacity owned by the caller
+	out := make([]byte, bufLen, bufLen+padLen)
+	copy(out, buf)
+	return append(out, padding...), nil
 }
 
 // UnpadPKCS7 removes PKCS#7 from a message.
